@@ -155,6 +155,13 @@ def run_property(pid, tier='quick', update_ledger=False, verbose=False):
         pass
     seed = int(os.environ.get('VERIF_SEED', '0') or 0)
     prop = load_prop(pid)
+    if tier == 'thorough':
+        # triple solver budgets (inherited by the forked workers)
+        from pyvc import smt as _smt
+        _smt.Z3_MS *= 3
+        _smt.CVC5_MS *= 3
+        from pyvc import contracts as _C
+        _C.FUNC_BUDGET_S *= 3
     jobs = [(pid, c.key, None) for c in prop.contracts]
     nproc = min(8, max(1, len(jobs)))
     results = []
@@ -301,9 +308,24 @@ def run_property(pid, tier='quick', update_ledger=False, verbose=False):
         claimed[oid] = dict(oid=oid, kind='engine', status='undecided', paths=0, backends=[], ms=0, model=None,
                             detail='UNSUPPORTED: ' + why, havoced=False)
         undecided.append(oid)
+    if tier == 'thorough':
+        # CPython cross-check of the engine itself: a disagreement is a checker error, never a verdict
+        try:
+            from pyvc import crosscheck
+            nx, badx = crosscheck.run()
+            bounded_pre = dict(name='engine.cpython_crosscheck', tool='pyvc interpreter in concrete mode vs CPython on the real functions',
+                               bound='%d concrete calls of opt, cmp, nocase, the dtml-var modifiers, parse_let_params' % nx,
+                               cases=nx, violation=False, witness=None, disagreements=badx[:5])
+            if badx:
+                crashed.append(dict(func='engine cross-check', error='pyvc disagrees with CPython: %r' % (badx[:3],)))
+        except Exception:
+            bounded_pre = None
+            crashed.append(dict(func='engine cross-check', error=traceback.format_exc()))
+    else:
+        bounded_pre = None
     missing = [o for o in ledger if o not in claimed]
     # bounded stand-ins (labelled; never counted as proved)
-    bounded_out = []
+    bounded_out = [bounded_pre] if bounded_pre else []
     for b in prop.bounded:
         try:
             out = _guarded(b, NATIVE_S * (4 if tier == 'thorough' else 1), tier)
